@@ -142,15 +142,15 @@ func init() {
 		QuickBudget: 8 * time.Minute, ThoroughBudget: 20 * time.Minute,
 	}
 	checks["C01"] = &CheckDef{
-		Pkgs:    []string{"./control"},
-		Harness: []string{"control:Verif_C01_one_rule", "control:Verif_C01_two_rules", "control:Verif_C01_shared_set", "control:Verif_C01_key_groups"},
+		Pkgs:    []string{"./control", "./component/routing"},
+		Harness: []string{"control:Verif_C01_one_rule", "control:Verif_C01_two_rules", "control:Verif_C01_shared_set", "control:Verif_C01_key_groups", "component/routing:Verif_C01_value_parsers"},
 		MaxIter: 600,
 		Level:   "other",
 		LevelText: "A routing program of symbolic shape (condition kinds, '!' flags, one or two values or key groups, outbound with mark/must parameters, must_rules, fallback) is lowered by the real NormalizedProgram.Lower / RulesBuilder.Apply / ParseOutbound into the real RoutingMatcherBuilder.add* methods with symbolic typed values (ports, prefixes, MACs, process names, DSCP, protocol/version masks), compiled by the real BuildUserspace, and a fully symbolic packet is routed through the real ControlPlane.Route / RoutingMatcher.Match. The solver shows (outbound, mark, must) equal to a first-match evaluator written from the statement, for every packet and every value.",
 		LevelNote: "Trusted: go/ssa, executor, z3/cvc5, the evaluator in the harness. Contracts used instead of re-executing the set matchers: K-LPM (trie.Prefix2bin128 + NewTrieFromPrefixes + HasPrefix decide CIDR containment on the IPv4-mapped form; proved in C12) and K-DOM (the domain matcher's bitmap has bit i set iff the set added under RuleIndex i matches; C11) - each domain set's match is a free boolean. The text-to-value parsers (ParsePortRange, ParseMac, parsePrefixes ...) are bypassed: parser closures hand symbolic typed values to the real add* methods.",
 		Technique: techniqueText,
 		Explanation: "Bounded symbolic execution of rule lowering, compilation and the userspace matcher against a first-match specification.",
-		Bounds:  map[string]string{"quick": "key_groups: domain(full, suffix) && {dport | l4proto} in either written order; shared_set: sip(P) -> x ; ip(P) -> y over one de-duplicated prefix set P (3 prefix forms), either negated; one rule + fallback: each of the 10 condition kinds, 1-2 values (domain: 1-2 key groups), negation symbolic, 4 outbound forms incl. must_rules; two rules + fallback: port && {ip | domain | mac} (1-2 values) then sport, first rule must_rules or a marked group; prefix forms v4/24, v6/64, v4/0; packet fully symbolic (both address forms for the destination, with and without a domain)", "thorough": "all 10 kinds in every position of the two-rule shape, 7 outbound forms, prefix forms /0 /24 /32 /64 /128"},
+		Bounds:  map[string]string{"quick": "value_parsers: written values -> typed values (process names of 1/15/16/17/20 symbolic bytes, port ranges, l4proto / ipversion words, MAC, prefixes); key_groups: domain(full, suffix) && {dport | l4proto} in either written order; shared_set: sip(P) -> x ; ip(P) -> y over one de-duplicated prefix set P (3 prefix forms), either negated; one rule + fallback: each of the 10 condition kinds, 1-2 values (domain: 1-2 key groups), negation symbolic, 4 outbound forms incl. must_rules; two rules + fallback: port && {ip | domain | mac} (1-2 values) then sport, first rule must_rules or a marked group; prefix forms v4/24, v6/64, v4/0; packet fully symbolic (both address forms for the destination, with and without a domain)", "thorough": "all 10 kinds in every position of the two-rule shape, 7 outbound forms, prefix forms /0 /24 /32 /64 /128"},
 		Outside: []string{"more than two rules / two conditions per rule (the per-match-set loop state is the same for any length)", "string parsers of values", "config.patchMustOutbound"},
 		Assumptions: []string{"K-LPM (C12)", "K-DOM (C11): domain-set hits are free booleans", "logger is a no-op"},
 		QuickBudget: 8 * time.Minute, ThoroughBudget: 25 * time.Minute,
@@ -188,7 +188,7 @@ func init() {
 		Harness: []string{"common/bitlist:Verif_C11_bitlist", "pkg/trie:Verif_C11_trie_contract", "pkg/trie:Verif_C11_trie_words", "component/routing/domain_matcher:Verif_C11_kinds", "component/routing/domain_matcher:Verif_C11_invalid_skipped"},
 		MaxIter: 2000,
 		Level:   "other",
-		LevelText: "The real AhocorasickSlimtrie (AddSet, Build, MatchDomainBitmap, ToSuffixTrieString) over the real succinct trie (trie.NewTrie, HasPrefix, countZeros, selectIthOne, init) and packed bit list (CompactBitList Set/Get/Append/Tighten) is executed with pattern sets of two kinds at bit indices 1 and 33 and a symbolic host name (mixed case, optional trailing dot): the solver shows each set's bit equal to the statement's meaning of its kind (full / suffix with and without leading dot / keyword) and all other bits clear, that patterns with characters outside the alphabet are skipped without effect, that the trie decides 'some key is a prefix of the word' for key sets with nested and duplicate keys and the alphabet's zero character, also for a key set whose rank/select tables span several 64-bit words, and that the bit list reads back what was written for every unit width 1..17 and arbitrary values.",
+		LevelText: "The real AhocorasickSlimtrie (AddSet, Build, MatchDomainBitmap, ToSuffixTrieString) over the real succinct trie (trie.NewTrie, HasPrefix, countZeros, selectIthOne, init) and packed bit list (CompactBitList Set/Get/Append/Tighten) is executed with pattern sets of two kinds at bit indices 1 and 33 or 1 and 9 (different / same bitmap word) and a symbolic host name (mixed case, optional trailing dot): the solver shows each set's bit equal to the statement's meaning of its kind (full / suffix with and without leading dot / keyword) and all other bits clear, that patterns with characters outside the alphabet are skipped without effect, that the trie decides 'some key is a prefix of the word' for key sets with nested and duplicate keys and the alphabet's zero character, also for a key set whose rank/select tables span several 64-bit words, and that the bit list reads back what was written for every unit width 1..17 and arbitrary values.",
 		LevelNote: "Trusted: go/ssa, executor, z3, the kind semantics written in the harness. The Aho-Corasick automaton (third party) is used through its contract (Contains <=> a pattern is a substring); Go regexp (regex kind) is not exercised. Patterns and trie keys are chosen from pools so that the succinct structure is built concretely; names / words / bit-list values are symbolic.",
 		Technique: techniqueText,
 		Explanation: "Bounded symbolic execution of the domain matcher, the succinct trie and the packed bit list.",
@@ -227,7 +227,7 @@ func init() {
 		LevelNote: "Trusted: go/ssa, executor and its cooperative thread model (preemption only at synchronisation operations: data-race-free code assumed), z3. The worker in part (1) is a skeleton written in the harness that calls the real manager functions at each exit; part (3) ties that skeleton to the real loop. Control-plane construction, listeners, retirement draining and signal delivery are not executed.",
 		Technique: techniqueText,
 		Explanation: "Bounded schedule exploration of the reload manager with symbolic schedules, plus control-flow-graph path queries over (*Runner).Run.",
-		Bounds: map[string]string{"quick": "2 signals with a free switch point between them + 1 follow-up request, 3 worker exits per request (early failure, success, success with retirement), <=1 preemption (plus all orders at blocking points); counter: 4 begin/end operations, 2 concurrent ends with <=2 preemptions; CFG walks of <= 2x|blocks| steps (132 and 80)", "thorough": "2 signals with a free switch point, 4 exits, <=2 preemptions (about 950k schedules, 15 min); 6 begin/end operations"},
+		Bounds: map[string]string{"quick": "2 signals with a free switch point between them + 1 follow-up request, 4 worker exits per request, <=1 preemption (plus all orders at blocking points); counter: 4 begin/end operations, 2 concurrent ends with <=2 preemptions; CFG walks of <= 2x|blocks| steps (132 and 80)", "thorough": "2 signals with a free switch point, 4 exits, <=2 preemptions (about 950k schedules, 15 min); 6 begin/end operations"},
 		Outside: []string{"the body of each reload stage (config load, control-plane construction, listener hand-over, retirement drain)", "OS signal delivery and coalescing in the runtime", "more than three signals in flight", "data races on non-atomic variables"},
 		Assumptions: []string{"goroutines switch only at synchronisation operations (channel, mutex, atomic, sync.Map, timers)", "progress file replaced by a variable; suppression hooks in package cmd replaced by counters (the real counter is checked in part 2)", "CFG queries: branch conditions are free, so an infeasible walk could be reported (none is on the current tree)"},
 		QuickBudget: 10 * time.Minute, ThoroughBudget: 20 * time.Minute,
